@@ -525,13 +525,16 @@ func vC47_probes() {
 			rejected.Add(1)
 		}
 	}
+	callers := vCase("callers")
 	vGo("a", caller)
 	vGo("b", caller)
-	vGo("c", caller)
+	if callers == 3 {
+		vGo("c", caller)
+	}
 	vRun()
 	vAssume(vAllDone())
 	vAssert(int(peak.Load()) <= max, "a half-open breaker never runs more than halfOpenMaxCalls probes at the same time")
-	vAssert(admitted.Load()+rejected.Load() == 3, "every caller is either admitted or rejected")
+	vAssert(int(admitted.Load()+rejected.Load()) == callers, "every caller is either admitted or rejected")
 	vAssert(len(b.semCh) == 0, "every probe token is returned")
 	if rejected.Load() > 0 {
 		vCover("some-rejected")
